@@ -140,6 +140,8 @@ def run_tlc(spec, cfg, wd, env=None, workers=1, simulate=None, depth=None, seed=
             dfs=False, coverage=False, heap=None, extra=None, deadlock=None, keep_one_in=1):
     """Runs TLC on spec/<spec>.tla with <cfg> (a path or a cfg text).  Returns TlcResult."""
     os.makedirs(wd, exist_ok=True)
+    if simulate:
+        workers = 1          # -simulate with several workers is not reproducible from the seed
     if "\n" in cfg or not os.path.exists(cfg):
         cfgpath = os.path.join(wd, os.path.basename(spec).replace(".tla", "") + ".gen.cfg")
         with open(cfgpath, "w") as f:
